@@ -90,6 +90,12 @@ def run(tier, seed, which="C02"):
 
     def mc(name):
         return name, kv.run_tlc("MC_TaskTree", "MC_TaskTree_%s.cfg" % name, wd, workers=4, timeout=1800, name=name)
+    rb = kv.run_tlc("Bisect", "MC_Bisect.cfg", wd, workers=1, timeout=600, name="bisect")
+    V.add_tlc(rb)
+    if not rb.ok:
+        raise kv.Broken("MC_Bisect fails: %s" % rb.errors[:2])
+    if kv.run_tlc("Bisect", "MC_Bisect_twin.cfg", wd, workers=1, timeout=600, name="bisect_twin").ok:
+        raise kv.Broken("MC_Bisect twin (one-sided fallback) terminates: the liveness property is vacuous")
     for name, r in kv.pmap(mc, mcs + TWINS, workers=4):
         if name in TWINS:
             if r.ok:
@@ -146,6 +152,10 @@ def run(tier, seed, which="C02"):
         hb = os.path.join(swd, "all.ndjson")
         kv.write_ndjson(hb, [e for e in allev if e.get("e") != "Obj"])
         r1 = kv.run_tlc("TaskTreeTrace", "TaskTreeTrace.cfg", swd, trace=hb, timeout=1800, heap="4g", name="hb")
+        # the recursion of the bisecting k-means against Bisect.tla (diagnostic)
+        bp = os.path.join(swd, "bisect.ndjson")
+        kv.write_ndjson(bp, [e for e in allev if e.get("e") in ("KmNode", "KmKids", "KmDone", "RunEnd")])
+        r1.bisect = kv.run_tlc("BisectTrace", "BisectTrace.cfg", swd, trace=bp, timeout=900, heap="3g", name="bisect")
         # output identity per build family
         gev = []
         for fam in (("rel", "noomp"), ("san",)):
@@ -165,6 +175,12 @@ def run(tier, seed, which="C02"):
         sc = S[si]
         V.add_tlc(r1)
         V.add_tlc(r2)
+        V.add_tlc(r1.bisect)
+        V.extra["kmeans_splits_checked_against_Bisect"] = V.extra.get("kmeans_splits_checked_against_Bisect", 0) + sum(1 for x in r1.bisect.prints if x.startswith('<<"KVSPLIT"'))
+        for (ln, sid, items) in r1.bisect.divs:
+            V.divergence("scenario %s, k-means recursion event %d: %s" % (S[si]["id"], ln, ",".join(sorted(items))))
+        if not r1.bisect.accepted:
+            V.divergence("scenario %s: k-means recursion trace not consumed" % S[si]["id"])
         runs = by_s[si]
         ev_all = kv.read_trace(hb)
         kinds = set(e.get("e") for e in ev_all)
